@@ -485,6 +485,8 @@ def kani_check_kind(desc):
     d = desc.lower()
     if "unwinding assertion" in d:
         return "unwind"
+    if "obligation:" in d:
+        return "assert"
     if "overflow" in d:
         return "overflow"
     if "division by zero" in d or "remainder" in d and "zero" in d or "divide by zero" in d:
@@ -493,7 +495,9 @@ def kani_check_kind(desc):
         return "bounds"
     if "unwrap" in d or "expect" in d or "unreachable" in d:
         return "unwrap"
-    if d.startswith("assertion failed") or "obligation:" in d or d.startswith("[post") or d.startswith("post"):
+    if "obligation:" in d:
+        return "assert"
+    if d.startswith("assertion failed") or d.startswith("[post") or d.startswith("post"):
         return "assert"
     if "dereference failure" in d or "pointer" in d or "memory" in d or "free" in d or "deallocat" in d:
         return "memory"
@@ -517,7 +521,7 @@ def decode_playback(pb):
 
 def run_kani_harness(gpath, bdir, h, flags):
     td = os.path.join(bdir, "td_" + h["name"])
-    cmd = ["kani", os.path.basename(gpath), "--harness", h["name"], "--exact", "--target-dir", td,
+    cmd = ["kani", os.path.basename(gpath), "--harness", h.get("module", "harness") + "::" + h["name"], "--exact", "--target-dir", td,
            "-Z", "concrete-playback", "--concrete-playback=print", "--output-format", "regular"] + flags
     if h.get("unwind"):
         cmd += ["--default-unwind", str(h["unwind"])]
@@ -525,7 +529,9 @@ def run_kani_harness(gpath, bdir, h, flags):
         cmd += ["--solver", h["solver"]]
     for a in h.get("args", []):
         cmd.append(a)
-    r = run_cmd(cmd, cwd=bdir, timeout=h.get("timeout", 300))
+    env = dict(os.environ)
+    env["RUSTFLAGS"] = "--edition 2021"
+    r = run_cmd(cmd, cwd=bdir, timeout=h.get("timeout", 300), env=env)
     p = parse_kani(r["out"])
     p.update({"cmd": " ".join(cmd), "wall": r["wall"], "timeout": r["timeout"], "rc": r["rc"],
               "tail": (r["out"][-3000:] + "\n" + r["err"][-3000:])})
@@ -541,12 +547,20 @@ def kani_native_replay(gen, bdir, hname, playback):
     if not m:
         return {"ran": False, "why": "no playback test name"}
     tname = m.group(1)
-    rp = os.path.join(bdir, f"replay_{hname}.rs")
-    open(rp, "w").write(gen + "\n#[cfg(kani)]\nmod verif_replay_tests { use super::*;\n" + playback + "\n}\n")
-    td = os.path.join(bdir, "td_replay_" + hname)
-    cmd = ["kani", "playback", "-Z", "concrete-playback", "--test", tname, os.path.basename(rp), "--target-dir", td]
-    r = run_cmd(cmd, cwd=bdir, timeout=300)
-    subprocess.call(["rm", "-rf", td])
+    rdir = os.path.join(bdir, f"replay_{hname}")
+    subprocess.call(["rm", "-rf", rdir])
+    os.makedirs(rdir, exist_ok=True)
+    rp = os.path.join(rdir, "replay.rs")
+    # convention: `mod harness { ... }` is the last item of a Kani template; the playback test goes inside it
+    cut = gen.rstrip().rfind("}")
+    open(rp, "w").write(gen[:cut] + "\n" + playback + "\n}\n")
+    cmd = ["kani", "playback", "-Z", "concrete-playback", "replay.rs", "--", tname]
+    env = dict(os.environ)
+    env["RUSTFLAGS"] = "--edition 2021"
+    r = run_cmd(cmd, cwd=rdir, timeout=300, env=env)
+    for f in os.listdir(rdir):
+        if f != "replay.rs":
+            subprocess.call(["rm", "-rf", os.path.join(rdir, f)])
     txt = r["out"] + r["err"]
     failed = ("panicked at" in txt) or ("test result: FAILED" in txt)
     passed = "test result: ok" in txt
@@ -837,7 +851,8 @@ def main():
         print(json.dumps({k: rep[k] for k in ("property", "obligation", "function", "clause", "verifier_output")}, indent=1))
         nr = rep.get("native_replay")
         if nr and nr.get("cmd") and os.path.exists(nr.get("file", "")):
-            r = run_cmd(nr["cmd"].split(), cwd=os.path.dirname(nr["file"]), timeout=300)
+            env = dict(os.environ); env["RUSTFLAGS"] = "--edition 2021"
+            r = run_cmd(nr["cmd"].split(), cwd=os.path.dirname(nr["file"]), timeout=300, env=env)
             print(r["out"][-3000:], r["err"][-2000:])
         ur = rep.get("real_code_replay")
         if ur:
